@@ -54,7 +54,9 @@ type Scenario struct {
 	Tree         []TNode    `json:"tree"`
 	Rules        *string    `json:"rules,omitempty"` // content of /w/src/.terraformignore (nil: no file)
 	Opts         Opts       `json:"opts"`
-	History      []string   `json:"history,omitempty"` // neg-first other-opts empty-rules chdir:<dir> same
+	History      []string   `json:"history,omitempty"`    // neg-first other-opts empty-rules chdir:<dir> same
+	Expect       []string   `json:"-"`                    // per run: output digest of the same run in a fresh process that has no history (set by the orchestrator, never stored)
+	HistAfter    int        `json:"hist_after,omitempty"` // the first HistAfter runs execute before the history instead of after it (sequential runs only)
 	Runs         []PackRun  `json:"runs"`
 	Conc         bool       `json:"conc,omitempty"`          // runs execute as concurrent tasks
 	Chdirs       []string   `json:"chdirs,omitempty"`        // a further task that only changes the working directory
